@@ -30,8 +30,9 @@ def main(argv):
     # 1. build (this property's modules + driver)
     ok, log = common.lean_build(ob.get("modules", []))
     if not ok:
-        # an error inside Panoptica/Extracted is a broken extraction obligation; anything else is infrastructure
-        broken = [l for l in log.splitlines() if "error" in l and "Extracted" in l]
+        # an error inside Panoptica/Extracted is a broken extraction obligation, and so is generated data that no longer type-checks
+        # (the extractor met source outside its subset); anything else is infrastructure
+        broken = [l for l in log.splitlines() if "error" in l and ("Extracted" in l or "Panoptica/Generated" in l)]
         if not broken:
             sys.stderr.write(log[-4000:])
             print(f"INFRA: lake build failed for {pid}")
